@@ -3,7 +3,7 @@ from __future__ import annotations
 
 import numpy as np
 
-from .. import build, gen, monitors
+from .. import expr as E, build, gen, monitors
 from . import common as K
 from .c04 import _adapter, _data_matrix
 
@@ -98,6 +98,30 @@ def run_unit(unit, ctx):
     return R.out()
 
 
+def sibling_filter(R, rng, defn, cse):
+    """Another filter, alive in the same process and built after the one under observation: the same
+    sensor and reading names, other expressions (a second vehicle with the same sensor suite)."""
+    import copy
+
+    sib = copy.deepcopy(defn)
+    for sn, rd in sib["sensors"].items():
+        for rn in rd:
+            rd[rn] = ["add", ["mul", E.C(2), rd[rn]], E.S(rng.choice(sib["state"]))]
+    for s_ in sib["model"]:
+        sib["model"][s_] = ["add", sib["model"][s_], ["mul", E.S(sib["dt"]), E.S(rng.choice(sib["state"]))]]
+    sib["model_as_text"] = []
+    try:
+        keep = build.Built(sib, attach=False).py_ekf(common_subexpression_elimination=cse)
+        SIBLINGS.append(keep)
+        del SIBLINGS[:-4]
+        R.stats.inc("sibling_filters_built_after")
+    except Exception:  # noqa: BLE001 - the sibling is not the object under observation
+        R.stats.inc("sibling_filter_failed")
+
+
+SIBLINGS = []
+
+
 def _direct(R, rng, defn, b, cse, ctx):
     k = rng.choice([None, None, 2.0, 5.0])
     try:
@@ -108,6 +132,9 @@ def _direct(R, rng, defn, b, cse, ctx):
         return
     ectx = monitors.EkfCtx(defn, innovation_filtering=k)
     names = sorted(defn["state"])
+    retained = None
+    if rng.random() < 0.4:
+        sibling_filter(R, rng, defn, cse)
     for pi in range(N_POINTS[ctx["tier"]]):
         pt = gen.point(rng, defn, scale=rng.choice([0.1, 1.0, 1.0, 3.0]))
         P, p_dtype = gen.typed_cov(rng, gen.spd(rng, len(names)))
@@ -126,8 +153,16 @@ def _direct(R, rng, defn, b, cse, ctx):
             if np.linalg.cond(S) > 1e4:
                 R.stats.inc("discarded_cond_S")
                 continue
-            mag = rng.choice([0.0, 0.1, 1.0, 3.0, "exact"])
-            if mag == "exact":
+            mag = rng.choice([0.0, 0.1, 1.0, 3.0, "exact", "simulated"])
+            sim_rd = None
+            if mag == "simulated":
+                # a measurement simulated from a truth state with the filter's own sensor model: the Reading
+                # object that SensorModel.model returned is handed to the update as it is
+                truth = ekf.State(**{s_: pt[s_] + rng.gauss(0, 0.3) for s_ in defn["state"]})
+                sim_rd = ekf.sensor_models[sname].model(truth)
+                z = np.array(sim_rd.data, dtype=float).copy()
+                R.stats.inc("simulated_reading_objects")
+            elif mag == "exact":
                 # the filter's own prediction: innovation is exactly zero
                 z = ekf.sensor_models[sname].model(st).data.copy()
                 R.stats.inc("exact_prediction_readings")
@@ -137,7 +172,9 @@ def _direct(R, rng, defn, b, cse, ctx):
                 g = g / max(np.linalg.norm(g), 1e-12) * mag
                 z = hx + L @ g
             rd = ekf.make_reading(sname, **{r: float(z[i, 0]) for i, r in enumerate(readings)})
-            if pi % 3 == 1:
+            if sim_rd is not None:
+                rd = sim_rd
+            elif pi % 3 == 1:
                 # the reading as a ready-made column in the sensor's own layout (make_reading(key, data=...)),
                 # as the scikit-learn adapter does
                 lay_r = monitors.names_of(rd)
@@ -157,6 +194,15 @@ def _direct(R, rng, defn, b, cse, ctx):
                 continue
             if m >= 2:
                 R.stats.inc("multi_reading_updates")
+            if retained is not None:
+                # a result returned earlier is the caller's: later calls on the filter must not change it
+                R.stats.inc("retained_result_checks")
+                r_old, xs, Ps = retained
+                if not (np.array_equal(r_old.state.data, xs) and np.array_equal(r_old.covariance.data, Ps)):
+                    R.add([K.V("sensor_model:earlier-result-changed",
+                               "an estimate returned by an earlier sensor_model call changed when the filter was used again",
+                               defn=defn, point=pt)])
+            retained = (res, res.state.data.copy(), res.covariance.data.copy())
             if mag == "exact" and not np.array_equal(res.state.data, st.data):
                 d = float(np.max(np.abs(res.state.data - st.data)))
                 if d > 1e-12 * max(1.0, float(np.max(np.abs(st.data)))):
